@@ -80,6 +80,12 @@ MUTANTS = [
     ("rms only when masking", "AegeanTools/BANE.py",
      "    irms[ymin:ymax, :] = interp_rms\n",
      "    if domask:\n        irms[ymin:ymax, :] = interp_rms\n", "C07-R6"),
+    ("halo rows from the box width (seed C07c)", "AegeanTools/BANE.py",
+     "    data_row_min = max(0, ymin - box_size[0]//2)",
+     "    data_row_min = max(0, ymin - box_size[1]//2)", "C07-R7"),
+    ("block clamped with the number of columns", "AegeanTools/BANE.py",
+     "    data_row_max = min(shape[0], ymax + box_size[0]//2)",
+     "    data_row_max = min(shape[1], ymax + box_size[0]//2)", "C07-R7"),
 ]
 TWINS = [
     ("processes exactly parties", "AegeanTools/BANE.py",
@@ -193,6 +199,16 @@ def run(ctx):
     r4(ctx, parent)
     r5(ctx, worker, bglobal)
     r6(ctx, parent, tasks_expr, worker)
+    # ---------------------------------------------------------------- R7
+    ctx.rule("C07-R7", "stripe lay-out: rows and columns are never mixed in "
+             "the worker -- the halo rows loaded around a stripe, the box "
+             "and the grid use the row extent (index 0 of box_size / "
+             "step_size / shape) on the row axis and the column extent on "
+             "the column axis")
+    from .. import unitrules as _ur
+    _ur.apply(ctx, "C07-R7", {"BANE.sigma_filter"}, kinds=set(),
+              report_rules={"idx-slice-axis", "idx-crossed"},
+              what="axis-typed expressions in sigma_filter", floor=None)
 
 
 # --------------------------------------------------------------------------
@@ -208,6 +224,7 @@ def _defs(fnode, name):
                 and s.target.id == name:
             out.append(s)
     return out
+
 
 
 def _slice_names(fnode, expr, limit=8):
